@@ -20,7 +20,8 @@ func init() {
 			"R3 change descriptions flow only into fmt.Fprintf on cmd.Stderr inside printComments, which is called only on the matched path and only from the --diff and --print-only arms; " +
 			"R4 the CLI and library pipelines agree: same parser mode, same imports.Options literal, format.Node before imports.Process, and main.cleanupFilePos and patch.cleanupFilePos have the same operation fingerprint (calls, comparisons, constants). " +
 			"NOT decided: that applying the printed diff reproduces the bytes (pkg/diff is third-party); behaviour of the boundary functions themselves." +
-			" R7 the library leaves an unmatched file as the command does.",
+			" R7 the library leaves an unmatched file as the command does." +
+			" R4 also: what File.Apply returns for a rewritten file is the imports.Process result.",
 		Trusted: append([]string{"boundary table: packages fmt strings bytes sort strconv unicode errors reflect io bufio log go/* path/filepath(pure part) multierr intervalset astutil pkg/diff go-flags x/tools/imports never create, modify or remove files through the functions gopatch calls; imports.Process is given FormatOnly:true"},
 			commonTrusted...),
 		Assumptions: commonAssumptions,
